@@ -22,11 +22,11 @@ def mk(entry, split, p, os_, mwma, fseq, fpar, mink, minn, size, seqs):
 def parse(line):
     t = list(map(int, line.split()))
     entry, split, p, os_, mwma, fseq, fpar, mink, minn, size, k = t[:11]
-    profile, mwma = mwma // 10, mwma % 10
+    kind, layout, profile, mwma = mwma // 1000, (mwma // 100) % 10, (mwma // 10) % 10, mwma % 10
     seqs = []; i = 11
     for _ in range(k):
         n = t[i]; seqs.append(t[i + 1:i + 1 + n]); i += 1 + n
-    return dict(entry=entry, split=split, p=p, os=os_, mwma=mwma, profile=profile, fseq=fseq, fpar=fpar, mink=mink, minn=minn,
+    return dict(entry=entry, split=split, p=p, os=os_, mwma=mwma, profile=profile, layout=layout, kind=kind, fseq=fseq, fpar=fpar, mink=mink, minn=minn,
                 size=size, seqs=seqs, total=sum(map(len, seqs)), stable=entry in (1, 3))
 
 def goes_parallel(c):
@@ -87,7 +87,15 @@ def gen_switch(rng, out):
     out.append(mk(rng.below(4), split, p, rng.choice([1, 2, 10]), rng.below(4), fseq, fpar, mink, minn, size, seqs))
 
 SAN_FLAGS = ["-std=c++17", "-O1", "-g1", "-fsanitize=address,undefined", "-fno-sanitize-recover=all", "-fno-omit-frame-pointer"]
-exe, log = ck.build_cpp("c07_harness", ["harness/C07/pmwm_harness.cpp"], repo_sources=REPO_SRC, flags=SAN_FLAGS)
+# two binaries of the same harness, built concurrently: 12-byte element (copy-based loser trees) and -DC07_FAT
+# (40-byte element owning its key on the heap, destructor poisons it: pointer-based loser trees)
+import concurrent.futures
+with concurrent.futures.ThreadPoolExecutor(2) as _ex:
+    _f1 = _ex.submit(ck.build_cpp, "c07_harness", ["harness/C07/pmwm_harness.cpp"], SAN_FLAGS, REPO_SRC)
+    _f2 = _ex.submit(ck.build_cpp, "c07_harness_fat", ["harness/C07/pmwm_harness.cpp"], SAN_FLAGS + ["-DC07_FAT"], REPO_SRC)
+    exe, log = _f1.result(); exe_fat, log_fat = _f2.result()
+if exe is not None and exe_fat is None:
+    exe, log = None, log_fat
 drv, dlog = ck.ocaml_driver("C07")
 HW = 1
 if exe is not None:
@@ -106,14 +114,42 @@ def assign_profile(rng, line):
     """choose the API profile of a generated case (harness/C07/pmwm_harness.cpp): field mwma = profile*10 + MWMA"""
     r = rng.below(100)
     prof = 0 if r < 40 else 1 + (r - 40) // 12
-    if prof == 0: return line
+    layout = rng.below(2)              # memory regime of the inputs (non-sentinel entry points)
+    kind = 1 if rng.chance(1, 4) else 0   # 1 = fat element binary
     t = line.split()
+    t[4] = str(kind * 1000 + layout * 100 + int(t[4]) % 10)
+    if prof == 0: return " ".join(t)
     if prof == 4:                      # everything defaulted: MWMA_ALGORITHM_DEFAULT = LOSER_TREE_COMBINED, MWMSA_DEFAULT = EXACT, hardware_concurrency()
         t[1] = "1"; t[2] = str(HW); t[4] = "1"
     elif prof == 5:
         t[2] = str(HW)
-    t[4] = str(prof * 10 + int(t[4]) % 10)
+    t[4] = str(int(t[4]) + prof * 10)
     return " ".join(t)
+
+def gen_algo_sweep(rng, out):
+    """every MultiwayMergeAlgorithm value x k = 2..9 x non-sentinel entry points x both memory regimes x both element
+    kinds, no empty sequence (so the unguarded phases run), thread counts that leave no chunk empty"""
+    for k in range(2, 10):
+        for mwma in range(4):
+            for entry in (0, 1):
+                for layout in (0, 1):
+                    for kind in (0, 1):
+                        seqs = [sorted(rng.below(rng.choice([4, 40])) for _ in range(rng.range(6, 18))) for _ in range(k)]
+                        total = sum(map(len, seqs))
+                        p = rng.choice([1, 1, 2, 3, 5])
+                        size = total if rng.chance(2, 3) else rng.range(total // 2, total)
+                        prof = rng.choice([0, 0, 1, 3])
+                        out.append(mk(entry, rng.below(2), p, rng.choice([1, 2, 10]), kind * 1000 + layout * 100 + prof * 10 + mwma,
+                                      0, 1, 2, 1000, size, seqs))
+
+def gen_ms(rng, out, n_cases):
+    """(stable_)parallel_mergesort (its per-thread merges are the same kernels): thread counts incl. 5,6,7,9"""
+    for _ in range(n_cases):
+        n = rng.choice([0, 1, 2, 7, rng.range(3, 60), rng.range(60, 400), rng.range(100, 700)])
+        keys = [rng.below(rng.choice([3, 50, 1000])) for _ in range(n)]
+        out.append((1 if rng.chance(1, 3) else 0,
+                    "ms %d %d %d %d %d %s" % (rng.below(2), rng.choice([1, 2, 3, 4, 5, 5, 6, 7, 7, 8, 9, 13]), rng.below(2), rng.choice([1, 2, 10]), n,
+                                              " ".join(map(str, keys)))))
 
 corpus = [l.strip() for l in open(os.path.join(verif.VERIF, "corpus", "C07", "cases.txt")) if l.strip() and not l.startswith("#")]
 cases = list(corpus)
@@ -126,6 +162,10 @@ else:
     for _ in range(nbig): gen_random(rng, cases, True)
     for _ in range(nsw): gen_switch(rng, cases)
     cases = cases[:len(corpus)] + [assign_profile(rng, l) for l in cases[len(corpus):]]
+    gen_algo_sweep(rng, cases)
+ms_cases = []
+if not ck.replay:
+    gen_ms(rng, ms_cases, 600 if ck.thorough() else 160)
 
 parsed = [parse(c) for c in cases]
 main_idx = list(range(len(parsed)))
@@ -234,31 +274,58 @@ else:
     if rc2 != 0 or len(model) != len(todo):
         ck.violation("extracted model driver failed", {"correspondence": "ocaml/C07_driver.ml", "log": out2[-1500:]}, no_input=True)
     else:
-        impl = []
-        start = 0; crashes = 0
-        BATCH = 400
-        while start < len(todo) and crashes < 3:
-            batch = todo[start:start + BATCH]
-            rc1, out1 = run_file(exe, batch, 60)
-            lines = [l for l in out1.splitlines() if l.startswith("ret=") or l == "BAD-CASE"]
-            if rc1 == 0 and len(lines) == len(batch):
-                impl += lines; start += len(batch); continue
-            # crash / hang: the offending case is the first one of the batch without an output line
-            lines = lines[:len(batch)]
-            impl += lines
-            bad = start + len(lines)
-            if bad >= len(todo): break
-            r, o = run_file(exe, [todo[bad]], 15)
-            found = True; crashes += 1
-            if r == 0:
-                # not reproducible alone: report the batch
-                ck.violation("real parallel_multiway_merge harness failed in a batch (rc=%d) but not on the single case" % rc1,
-                             {"case": todo[bad], "log_tail": out1[-2500:]})
-            else:
-                ck.violation("real parallel_multiway_merge %s on a valid input" % ("does not terminate" if r == 124 else "crashes under ASan/UBSan"),
-                             {"case": todo[bad], "log_tail": o[-2500:]})
-            impl.append("CRASH")
-            start = bad + 1
+        def run_impl(binary, lines, prefix):
+            """outputs in order; 'CRASH' for a crashing / hanging case (reported), None for cases not run"""
+            global found
+            res = []; start = 0; crashes = 0; BATCH = 400
+            while start < len(lines) and crashes < 3:
+                batch = lines[start:start + BATCH]
+                rc1, out1 = run_file(binary, batch, 90)
+                got = [l for l in out1.splitlines() if l.startswith(prefix) or l == "BAD-CASE"]
+                if rc1 == 0 and len(got) == len(batch):
+                    res += got; start += len(batch); continue
+                got = got[:len(batch)]
+                res += got
+                bad = start + len(got)
+                if bad >= len(lines): break
+                r, o = run_file(binary, [lines[bad]], 20)
+                found = True; crashes += 1
+                if r == 0:
+                    ck.violation("real parallel merge harness failed in a batch (rc=%d) but not on the single case" % rc1,
+                                 {"case": lines[bad], "log_tail": out1[-2500:]})
+                else:
+                    ck.violation("real %s %s on a valid input" % ("parallel_mergesort" if prefix == "ms " else "parallel_multiway_merge",
+                                                                  "does not terminate" if r == 124 else "crashes under ASan/UBSan"),
+                                 {"case": lines[bad], "log_tail": o[-2500:]})
+                res.append("CRASH")
+                start = bad + 1
+            return res + [None] * (len(lines) - len(res))
+        ix = [[i for i, c in enumerate(tp) if c["kind"] == kd] for kd in (0, 1)]
+        msx = [[i for i, (kd, _) in enumerate(ms_cases) if kd == k2] for k2 in (0, 1)]
+        with concurrent.futures.ThreadPoolExecutor(2) as ex:
+            fut = [ex.submit(run_impl, b, [todo[i] for i in ix[kd]], "ret=") for kd, b in ((0, exe), (1, exe_fat))]
+            r0, r1 = fut[0].result(), fut[1].result()
+        impl = [None] * len(todo)
+        for kd, rr in ((0, r0), (1, r1)):
+            for i, v in zip(ix[kd], rr): impl[i] = v
+        # parallel_mergesort runs: judged against the property of a (stable) sort by the Python reference
+        ms_stats = {"ms_cases": 0, "ms_fat": 0}
+        for kd, b in ((0, exe), (1, exe_fat)):
+            lines = [ms_cases[i][1] for i in msx[kd]]
+            outs = run_impl(b, lines, "ms ") if lines else []
+            for l, o in zip(lines, outs):
+                if o is None or o == "CRASH": continue
+                ms_stats["ms_cases"] += 1; ms_stats["ms_fat"] += kd; evaluations += 1
+                t = l.split(); stable_ms = t[1] == "1"; keys = list(map(int, t[6:]))
+                got = triples(o[len("ms out="):])
+                want = sorted((kk, 0, i) for i, kk in enumerate(keys))
+                bad = (got != want) if stable_ms else ([g[0] for g in got] != [w[0] for w in want] or sorted(got) != want)
+                if bad:
+                    found = True
+                    ck.violation("(stable_)parallel_mergesort result is not the %s" % ("stable sort" if stable_ms else "sorted permutation"),
+                                 {"case": l, "impl": o[:600]})
+                    break
+        stats.update(ms_stats)
         for idx, (line, c) in enumerate(zip(todo, tp)):
             if idx >= len(impl): break
             evaluations += 1
@@ -272,7 +339,10 @@ else:
             if c["p"] > c["total"]: stats["p_gt_total"] += 1
             stats["stable" if c["stable"] else "unstable"] += 1
             stats["profile_%d" % c["profile"]] = stats.get("profile_%d" % c["profile"], 0) + 1
-            if impl[idx] == "CRASH": continue
+            if c["kind"]: stats["fat_element"] = stats.get("fat_element", 0) + 1
+            if c["entry"] < 2: stats["layout_%s" % ("adjacent" if c["layout"] else "own_blocks")] = stats.get("layout_%s" % ("adjacent" if c["layout"] else "own_blocks"), 0) + 1
+            stats["mwma_%d_k%s" % (c["mwma"], len(c["seqs"]) if len(c["seqs"]) < 10 else "10+")] = stats.get("mwma_%d_k%s" % (c["mwma"], len(c["seqs"]) if len(c["seqs"]) < 10 else "10+"), 0) + 1
+            if impl[idx] is None or impl[idx] == "CRASH": continue
             f = fields(impl[idx])
             if f.get("fp") == "1" and c["split"] == 0 and c["size"] == c["total"]: stats["fp_rounding_cases"] += 1
             v = property_verdict(c, f)
